@@ -105,29 +105,41 @@ def rule_rewire(ctx):
             r.ok(f"basic[{dotted(c.func)} inds]")
         else:
             r.bad(Finding("rewire-pairing", f.qualname, f"gate tensor is built with inds={kws.get('inds')}, expected {gname}", where=where, operand="TG-inds"))
-    # every attach / contract of TG is preceded (same block) by tn.reindex_(map)
+    # every attach / contract of the gate tensor is preceded (same block) by <network>.reindex_(map); the network is the
+    # function's first parameter and the gate tensor whatever local the constructions above are bound to
+    tnname = f.posparams[0]
+    tgnames = {a.targets[0].id for a in ast.walk(f.node) if isinstance(a, ast.Assign) and isinstance(a.targets[0], ast.Name) and a.value in tgs}
+    if not tgnames:
+        raise AnalysisError("basic gate path: the gate tensor is not bound to a local")
     n = 0
     for block in _blocks(f.node):
         for i, st in enumerate(block):
-            attaches = isinstance(st, ast.AugAssign) and isinstance(st.op, ast.BitOr) and src_of(st.target) == "tn" and "TG" in src_of(st.value)
+            attaches = isinstance(st, ast.AugAssign) and isinstance(st.op, ast.BitOr) and src_of(st.target) == tnname \
+                and any(isinstance(x, ast.Name) and x.id in tgnames for x in ast.walk(st.value))
             if attaches:
                 n += 1
-                before = [s for s in block[:i] if isinstance(s, ast.Expr) and isinstance(s.value, ast.Call) and src_of(s.value.func) == "tn.reindex_" and [src_of(a) for a in s.value.args] == [mname]]
+                before = [s for s in block[:i] if isinstance(s, ast.Expr) and isinstance(s.value, ast.Call) and src_of(s.value.func) in (f"{tnname}.reindex_", f"{tnname}.reindex")
+                          and [src_of(a) for a in s.value.args] == [mname]]
                 if before:
-                    r.ok(f"basic[attach @ line {st.lineno}]", sample={"attach": src_of(st)[:50], "preceded by": f"tn.reindex_({mname})"})
+                    r.ok(f"basic[attach @ line {st.lineno}]", sample={"attach": src_of(st)[:50], "preceded by": f"{tnname}.reindex_({mname})"})
                 else:
                     r.bad(Finding("rewire-pairing", f.qualname, f"`{src_of(st)[:40]}` (line {st.lineno}) is not preceded in its block by tn.reindex_({mname}): the gate's inner labels would not meet the network", where=where, operand=f"attach"))
     if n < 2:
         raise AnalysisError("basic gate path: fewer than two attach sites found")
     # the split path receives the same map and gate tensor
     calls = [c for c in ast.walk(f.node) if isinstance(c, ast.Call) and dotted(c.func) == "_tensor_network_gate_inds_eager_split"]
-    if calls and mname in [src_of(a) for a in calls[0].args] and "TG" in [src_of(a) for a in calls[0].args]:
+    if calls and mname in [src_of(a) for a in calls[0].args] and (tgnames & {src_of(a) for a in calls[0].args}):
         r.ok("basic[eager split receives map and gate]")
     else:
         r.bad(Finding("rewire-pairing", f.qualname, "the eager-split path is not handed the reindex map and the gate tensor", where=where, operand="eager-split"))
     g = ctx.prog.func(GATING, "_tensor_network_gate_inds_eager_split")
-    src = src_of(g.node)
-    if "reindex_map" in g.params and ("reindex(reindex_map)" in src.replace("_(", "(") or "reindex_map" in src.split("def ")[1][50:]):
+    # the parameter that receives the map (by position of the argument in the call above) is applied with reindex
+    mpos = [src_of(a) for a in calls[0].args].index(mname) if calls and mname in [src_of(a) for a in calls[0].args] else None
+    mparam = g.posparams[mpos] if mpos is not None and mpos < len(g.posparams) else None
+    applied = mparam is not None and any(
+        isinstance(c, ast.Call) and isinstance(c.func, ast.Attribute) and c.func.attr in ("reindex", "reindex_") and any(isinstance(a, ast.Name) and a.id == mparam for a in c.args)
+        for c in ast.walk(g.node))
+    if applied:
         r.ok("eager_split[uses map]")
     else:
         r.bad(Finding("rewire-pairing", g.qualname, "reindex_map is never applied in the eager-split path", where=f"{g.module.relpath}:{g.lineno}", operand="map"))
